@@ -219,7 +219,7 @@ pub fn check_c03(t: &Transcript) -> Option<Finding> {
                         let sid = u32::from_le_bytes([data[6], data[7], data[8], data[9]]);
                         // activation index from the message name suffix (confirm_active_2 = second activation); inputs belong to the last one
                         let act = if base == "active_data" { t.params.reactivations } else { m.name.rsplit('_').next().and_then(|x| x.parse::<usize>().ok()).map(|n| n - 1).unwrap_or(0) };
-                        let want_sid = crate::peer::share_id_of_activation(t.params.share_id, act);
+                        let want_sid = crate::peer::share_id_of_activation(t.params.share_id, if t.params.reuse_share_id { 0 } else { act });
                         if sid != want_sid {
                             return Some(f("share-id-not-echoed", format!("{}: share id {:#x}, server assigned {:#x} for activation {}", m.name, sid, want_sid, act + 1)));
                         }
